@@ -95,7 +95,15 @@ func VerifH_C04_unpack_untrusted() {
 func VerifH_C04_format_any_short_directive() {
 	_, t := vhRT()
 	n := verifChoose("n", 3)
-	f := "%" + nondetString("f", n)
+	fs := nondetString("f", n)
+	if n == 2 && verifTier() == 0 {
+		// quick tier: a first byte that ends the directive (a verb or an invalid
+		// byte) makes the second one an ordinary literal; only the bytes that
+		// continue the directive are followed by an arbitrary second byte
+		c := fs[0]
+		verifAssume(c == '.' || (c >= '0' && c <= '9') || c == '-' || c == '+' || c == ' ' || c == '#' || c == '%')
+	}
+	f := "%" + fs
 	if verifTier() == 1 && verifChoose("tail", 2) == 1 {
 		f += "x"
 	}
